@@ -650,6 +650,10 @@ def run(rep: Report) -> None:
     rep.rule("R05.5", "declared ratios are positive; scale units (non-zero offsets) are leaves of the declared graph", floor=200)
     check_equate(rep, prog, resolver)
     check_translate(rep, prog, resolver)
+    from ..quantity_rules import check_decimal_helpers
+    rep.rule("R03.2", "the Decimal-preserving helpers every conversion multiplies and adds with apply the operator they are named for, exactly "
+             "(no lossy coercion of the other operand) - shared with C03", floor=5)
+    check_decimal_helpers(rep, prog, "R03.2")
     check_convert(rep, prog)
     check_in_unit(rep, prog, "R05.7")
     check_reduce_dimension(rep, prog)
